@@ -358,6 +358,12 @@ MUTATIONS += [
     dict(id="C12-modify-unchanged-nodes-dropped-on-rewrite", prop="C12", file=MODF, old="                NodeAction::Node(node, node_changed) => {\n                    changed |= node_changed;\n                    new_tree.add(node);", new="                NodeAction::Node(node, node_changed) => {\n                    changed |= node_changed;\n                    if node_changed || !changed {\n                        new_tree.add(node);\n                    }"),
 ]
 
+MUTATIONS += [
+    dict(id="C04-kdf-wrong-salt-param", prop="C04", file=KFILE, old="            self.r,\n            self.p,\n        )", new="            self.p,\n            self.r,\n        )"),
+    dict(id="C04-keyfromdata-skips-authentication", prop="C04", file=KFILE, old="        let dec_data = key.decrypt_data(&self.data)?;", new="        let dec_data = match key.decrypt_data(&self.data) {\n            Ok(d) => d,\n            Err(_) => self.data.clone(),\n        };"),
+    dict(id="C04-kdf-password-truncated", prop="C04", file=KFILE, old="        scrypt::scrypt(passwd.as_ref(), &self.salt, &params, &mut key).map_err(|err| {\n            RusticError::with_source(\n                ErrorKind::Key,\n                \"Output length invalid. Please check the key file and password.\",\n                err,\n            )\n        })?;\n\n        Ok(Key::from_slice(&key))", new="        scrypt::scrypt(&self.salt, passwd.as_ref(), &params, &mut key).map_err(|err| {\n            RusticError::with_source(\n                ErrorKind::Key,\n                \"Output length invalid. Please check the key file and password.\",\n                err,\n            )\n        })?;\n\n        Ok(Key::from_slice(&key))"),
+]
+
 HARMLESS = [
     dict(id="H-C05-trees-symlink-continue", prop="C05", file=CK, old="        for node in tree.nodes {\n            match node.node_type {", new="        for node in tree.nodes {\n            if node.node_type == NodeType::Symlink {\n                continue;\n            }\n            match node.node_type {"),
     # independent statements reordered
